@@ -5,6 +5,7 @@ import (
 	"crypto/sha256"
 	"errors"
 	"fmt"
+	"strings"
 	"testing"
 	"time"
 
@@ -267,6 +268,14 @@ func phaseGCCheck(src *source, ph int, c Cfg, th Thr, first uint64, wantGC bool,
 
 type refuser interface{ MustRefuse() bool }
 
+// stallSig picks the signature for a wait that was given up.
+func stallSig(stalled, why string) string {
+	if strings.HasPrefix(why, "no memory reading at all") {
+		return stalled
+	}
+	return "gc/without-remeasure-async"
+}
+
 func keyP(s *PScript) string {
 	h := sha256.New()
 	fmt.Fprintf(h, "%v|%s|%s", s.Cfg, s.Kind, s.Signal)
@@ -363,8 +372,8 @@ func runPInner(s *PScript, th Thr) (nontrivial bool, f *vt.Finding) {
 	for i, ph := range s.Phases {
 		id := src.setLevel(ph.First, ph.Post)
 		where := fmt.Sprintf("%s %s phase %d (first=%d [%s] post=%d [%s], soft=%d hard=%d, %v)", s.Kind, s.Signal, i, ph.First, th.place(ph.First), ph.Post, th.place(ph.Post), th.Soft, th.Hard, s.Cfg)
-		if !src.awaitCheck(id, stallTicks) {
-			return true, vt.Failf("checker/not-running-while-started", "%s: no memory reading at all during %d consecutive 50 ms harness ticks although check_interval is 1 ms", where, stallTicks)
+		if why := src.awaitCheckWhy(id, stallTicks); why != "" {
+			return true, vt.Failf(stallSig("checker/not-running-while-started", why), "%s: %s", where, why)
 		}
 		want, wantGC := expectRefuse(s.Cfg, th, ph.First, ph.Post)
 		if ext != nil {
@@ -422,5 +431,5 @@ func frozen(src *source, ms int, what string) *vt.Finding {
 
 func TestConsume(t *testing.T) {
 	shrinkBudget("10s") // a failing case costs milliseconds to seconds: bound the time rapid spends minimising
-	vt.Run(t, cP, vt.N(700, 12000), genP, runP)
+	vt.Run(t, cP, vt.N(1000, 16000), genP, runP)
 }
